@@ -760,10 +760,16 @@ def _iter_unused_names(
                         and name not in deferred_reads
                         and (
                             # And (name) is either not in preserve (so nothing upstream cares about
-                            # it), or (name) will surely be defined by a subsequent node
+                            # it), or (name) will surely be defined by a subsequent node, and the
+                            # statements in between cannot leave the scope before that.
                             name not in preserve
-                            # TODO this seems impossible, figure out what is intended
-                            or name in subsequent_created
+                            or (
+                                name in subsequent_created
+                                and not any(
+                                    core.is_blocking(child)
+                                    for following in body[body.index(node) + 1 :]
+                                    for child in ast.walk(following)
+                            ))
                     )):
                         for creation_node in core.filter_nodes(
                             parsing.assignment_targets(node), ast.Name(id=name, ctx=ast.Store)
